@@ -29,6 +29,14 @@ CHECKS = {
   design_ref="DESIGN.md section 4",
   note="Trusted: Go runtime/bufio, the harness' simulated reader/sink, the object generators (random residues, not cryptographically meaningful keys). Corruption positions are found format-independently (small little-endian words, 0/1 bytes); for encodings containing map keys the 'accepted but shorter' sub-check is skipped (a collided key is not a length/flag field). Allocation bound 1 GiB. bootstrapping.EvaluationKeys and bootstrapping.Parameters are not in the catalog yet.",
 ),
+"C17": dict(
+  engine="histsim",
+  technique="deterministic simulation of call histories on samplers and their level views over one keyed source, twin execution from the same key, reset-and-replay, per-call distribution-contract invariants; minimised choice-trace replay",
+  category="exploration",
+  text="Each run is a seed-determined history of Read/ReadNew/ReadAndAdd/AtLevel calls on a sampler (uniform, Gaussian incl. the big-number path, ternary with density or fixed weight; Montgomery or not) and on arbitrarily interleaved level views sharing its source. A twin built from the same key executes the same calls and must agree bit for bit, as must the replay after KeyedPRNG.Reset; after every call the produced sample (for ReadAndAdd: the difference with the previous content) is CRT-reconstructed and checked against the declared support, cross-modulus consistency and Hamming weight; repeated polynomials or repeated halves (reused buffer bytes) are flagged; moments are checked in bands of at least 8 standard errors; compressed evaluation keys must expand to the stream of a sampler keyed with the stored seed. No fault is injected (a failing PRNG is outside the contract); what the simulator contributes is the history/interleaving search, twin and replay.",
+  design_ref="DESIGN.md section 8",
+  note="Trusted: ring.PolyToBigintCentered / IMForm as substrate (each reconstructed value is re-verified row by row with math/big), BLAKE2b XOF. Residues are compared canonically (q standing for 0 is accepted). Support is only decided when the modulus at the view's level exceeds twice the bound. Statistical clauses are sampled, not proved.",
+),
 }
 
 def main():
@@ -62,6 +70,7 @@ def main():
         "engines": [
             {"name": "core", "path": "sim/core", "serves_properties": sorted(CHECKS), "kind_free_text": "seeded chooser (single source of choices), deterministic crypto/rand replacement, worker processes with fatal-error attribution, delta-debugging shrinker on the choice trace, replay files, determinism audit, evidence writer"},
             {"name": "simio", "path": "sim/simio", "serves_properties": ["C08"], "kind_free_text": "simulated byte stream: fragmenting/ending/failing reader, failing sink"},
+            {"name": "histsim", "path": "sim/props (c17.go, c09.go)", "serves_properties": [p for p in ["C09", "C17"] if p in CHECKS], "kind_free_text": "history simulator: seeded call histories on long-lived objects with twin execution, scratch poisoning and reset/replay"},
         ],
         "checks": checks,
         "not_applicable": [{"property_id": k, "reason": v} for k, v in sorted(na.items())],
